@@ -145,7 +145,7 @@ def stepSpec (st : DSt) (ts : List String) : DSt × Option String :=
   | ["par", res, bs, sched] => match res.toNat?, parseNats bs, parseNats sched with
       | some res, some bs, some sched =>
         if !schedOk bs.length sched then (st, some "bad-op") else
-        let ths : List RThread := bs.map fun b => { res := res, b := b }
+        let ths : List Thread := bs.map fun b => { res := res, b := b }
         let (H', asis) := refRunSched RuleInfo.feed st.infos st.H st.now ths sched
         let (_, claim) := refRunSched srcDemanded st.infos st.H st.now ths sched
         let st' := { st with H := H', seen := addSeen st.seen res }
